@@ -169,6 +169,9 @@ class Check(BaseCheck):
                 vals.append(x)
                 x = math.nextafter(x, math.inf)
         vals += [0.1 + 0.2, 0.3, 1, 1.0000000000000002, 1.0000000000000007, 2 ** 53, 2 ** 53 + 1, float(2 ** 53)]
+        # different texts that some normalisation (NFC/NFKC, case folding) would identify: still different texts, so exactly one of < = > holds
+        vals += rnd.sample(['caf\u00e9', 'cafe\u0301', '\u00c5', 'A\u030a', '\u212b', '\ufb01', 'fi', '\u00df', 'ss', 'SS', '\u212a', 'K', 'k', '\u0130', 'i\u0307', 'I', '\u1e9e',
+                            '\uff21', '\u00e9', 'e\u0301', '\u0301e', '\U00020000', '\ud55c', '\u1112\u1161\u11ab'], 8)
         while len(vals) < n + 60:
             vals.append(GV.gen(rnd, rnd.choice(classes)))
         rnd.shuffle(vals)
